@@ -16,7 +16,8 @@ Init == /\ base1 \in BaseKinds /\ base2 \in {"absent", "one"}
         /\ requested \in ReqSeqs
         /\ args \in {"none", "two"}
         /\ nobase \in BOOLEAN
-        /\ resolve \in {"stem", "defpath", "def_nopath"}
+        \* defpath_missing: a definition path is configured but no such file exists (a file with the command's stem does)
+        /\ resolve \in {"stem", "defpath", "def_nopath", "defpath_missing"}
         /\ customdirs \in BOOLEAN
         \* both targets resolve commands in ONE shared directory (only meaningful with custom directories)
         /\ shareddir \in BOOLEAN /\ (shareddir => customdirs)
